@@ -42,7 +42,8 @@ def matrix_cases(rnd, reps):
                             d = new(); prog.append(["const", d, ["int", rnd.choice([1, 2, 3, 5, -1, -2, -3, 0, 4])]]); return d
                         d = new(); prog.append(["const", d, ["float", rnd.choice([1, 3, 5, -1, -3, -5, 8, 0]), rnd.choice([0, 1, 2])]]); return d
                     a = operand(ka, 0); b = operand(kb, 1)
-                    prog.append(["bin", new(), op, a, b])
+                    prog.append(["bin", new(), op, a, b] + (["i"] if rnd.random() < 0.25 else []))
+                    if rnd.random() < 0.3: prog.append(["bin", new(), rnd.choice(["add", "sub"]), a, b])       # the operands are used again afterwards
                     ins = [rnd.choice([0, 1, 2, 3, 5, 6, 7, -1, -2, -3, -6]), rnd.choice([1, 2, 3, 4, 6, -1, -2, -3, 0]), rnd.choice([0, 1]), rnd.choice([0, 1])]
                     out.append(dict(cfg=dict(p=rnd.choice([progs.BN, progs.BLS]), n=n, res=res, ign=0), prog=prog, ins=ins))
     return out
